@@ -275,7 +275,9 @@ class TaintAnalysis:
             return EMPTY
         lab = self.spec.source(fn, e) if isinstance(e, ast.expr) else None
         if lab:
-            return frozenset([lab])
+            from .common import alpha_locals
+
+            return frozenset([alpha_locals(fn, lab)])
         rec = lambda x: self.expr(fn, x, env, self_cls, depth)  # noqa: E731
         if isinstance(e, ast.Constant):
             return EMPTY
